@@ -93,8 +93,13 @@ CLAIMED = {
         technique="Coq proof: frame-agreement and row-equivariance lemmas; differential correspondence under frame transformations"),
     "C09": dict(
         text=("Theorems (Coq): drop = run on the frame filtered by the incomplete-row mask over the USED columns; error "
-              "iff such a row exists; pass keeps all rows; unused columns irrelevant (see property file). NaN "
-              "propagation through numpy kernels is tied by correspondence." + COMMON),
+              "iff such a row exists; pass keeps all rows; unused columns irrelevant (see property file). 'pass' "
+              "(C09_pass_policy): for models of plain variables, arithmetic calls and C/T/S codings, on frames whose "
+              "missing values sit in numeric columns and whose levels all occur on complete rows, the design under "
+              "drop is the design under pass with the incomplete rows removed, and on every row a term is NaN in all "
+              "its columns if a numeric variable it reads is missing there and in none otherwise (NaN * 0 = NaN); "
+              "the level-coverage premise is shown necessary by a computed witness. Stateful transforms under pass "
+              "(every row NaN) are tied by correspondence." + COMMON),
         design_ref="DESIGN.md section 5 C09, section 10",
         technique="Coq proof: missing-value policy as a row filter over used columns; correspondence over missingness patterns"),
     "C10": dict(
@@ -125,7 +130,11 @@ CLAIMED = {
               "invertible; full codings span all indicators; all codings of one factor have the same column space; "
               "entry bridge to the executable model. Lifted to whole categorical designs by the tensor bridge: the "
               "column space of a coded design on complete-factorial cells does not depend on which valid coding each "
-              "factor uses (C13_coding_never_changes_the_column_space; Treatment and Sum are valid codings)." + COMMON),
+              "factor uses (C13_coding_never_changes_the_column_space; Treatment and Sum are valid codings). Options "
+              "(C13_options.v): levels sorted or in the declared / levels= order, levels= accepted iff it has the "
+              "values of the data as a set, a named reference / omitted level refused iff consulted and absent, "
+              "labels = levels without the level left out, defaults = first / last level of the order in force, end "
+              "to end through C / T / S calls." + COMMON),
         design_ref="DESIGN.md section 5 C13, section 10",
         technique="Coq/MathComp proof: explicit inverses and column-space equalities of contrast matrices; exhaustive correspondence n = 1..12"),
     "C14": dict(
